@@ -1224,7 +1224,7 @@ class W3TermInfo(TermInfo):
             offpos = st.size
             lenpos = st.size + _LONG_SIZE
             terminfo._offset = unpack_long(s[offpos:lenpos])[0]
-            terminfo._length = unpack_int(s[lenpos:lenpos + _INT_SIZE])
+            terminfo._length = unpack_int(s[lenpos:lenpos + _INT_SIZE])[0]
 
         return terminfo
 
